@@ -116,6 +116,8 @@ type HarnessError string
 // parallel runs fn(i) for i in [0,n) on c.Workers goroutines.
 func (c *Ctx) parallel(n int, fn func(i int)) {
 	var wg sync.WaitGroup
+	var mu sync.Mutex
+	var firstPanic any
 	ch := make(chan int, 64)
 	w := c.Workers
 	if w > n {
@@ -126,7 +128,18 @@ func (c *Ctx) parallel(n int, fn func(i int)) {
 		go func() {
 			defer wg.Done()
 			for i := range ch {
-				fn(i)
+				func() {
+					defer func() {
+						if r := recover(); r != nil {
+							mu.Lock()
+							if firstPanic == nil {
+								firstPanic = r
+							}
+							mu.Unlock()
+						}
+					}()
+					fn(i)
+				}()
 			}
 		}()
 	}
@@ -135,6 +148,10 @@ func (c *Ctx) parallel(n int, fn func(i int)) {
 	}
 	close(ch)
 	wg.Wait()
+	if firstPanic != nil {
+		// re-raise on the caller's goroutine, where Main turns a HarnessError into exit code 2
+		panic(firstPanic)
+	}
 }
 
 // protect runs fn and returns the recovered panic, if any.
